@@ -90,11 +90,12 @@ Proof. intros v b c c'. unfold xset_max. destruct (var_set_max (fget (fst c) v) 
   intro H; inversion H; subst; simpl. apply fupd_ile. eapply var_set_max_ile; eauto. Qed.
 
 Lemma fv_set_isafe : forall w, (forall b, isafe (fv_set_min w b)) /\ (forall b, isafe (fv_set_max w b)).
-Proof. induction w as [v|k|u [IH1 IH2]|u [IH1 IH2]]; simpl; split; intro b.
+Proof. induction w as [v|k|u [IH1 IH2]|u [IH1 IH2]|u [IH1 IH2]]; simpl; split; intro b.
   - apply xset_min_isafe. - apply xset_max_isafe.
   - intros c c'. destruct (val_le b k); [|discriminate]. intro H; inversion H; apply store_ile_refl.
   - intros c c'. destruct (val_ge b k); [|discriminate]. intro H; inversion H; apply store_ile_refl.
   - apply IH2. - apply IH1.
+  - intros c c' H. eapply IH1; eauto. - intros c c' H. eapply IH2; eauto.
   - intros c c' H. eapply IH1; eauto. - intros c c' H. eapply IH2; eauto. Qed.
 
 Lemma flin_loop_isafe : forall step, (forall i coeff v, isafe (step i coeff v)) ->
@@ -172,6 +173,8 @@ Lemma prune_fleq_isafe : forall x y, isafe (prune_fleq x y).
 Proof. intros x y c c' H. unfold prune_fleq in H.
   destruct (fv_set_max x (fv_max y (fst c)) c) as [c1|] eqn:E; [|discriminate].
   eapply store_ile_trans. eapply (proj1 (fv_set_isafe y)); eauto. eapply (proj2 (fv_set_isafe x)); eauto. Qed.
+Lemma prune_flt_isafe : forall x y, isafe (prune_flt x y).
+Proof. intros x y c c' H. unfold prune_flt in H. destruct (int_below_float_var x y (fst c)); eapply prune_fleq_isafe; eauto. Qed.
 Lemma prune_feq_isafe : forall x y, isafe (prune_feq x y).
 Proof. intros x y c c' H. unfold prune_feq in H.
   destruct (fv_set_min x _ c) as [c1|] eqn:E1; [|discriminate].
@@ -200,13 +203,14 @@ Inductive fvocab : fprop -> Prop :=
 | V_eqr : forall cs vs k b, fvocab (mk_flin_eq_reif cs vs k b)
 | V_ner : forall cs vs k b, fvocab (mk_flin_ne_reif cs vs k b)
 | V_leq : forall x y, fvocab (mk_fleq x y)
+| V_flt : forall x y, fvocab (mk_flt x y)
 | V_feq : forall x y, fvocab (mk_feq x y)
 | V_ilin : forall cs vs k, fvocab (mk_ilin_le_mixed cs vs k).
 Lemma fvocab_fsafe : forall p, fvocab p -> fsafe p.
 Proof. intros p H; destruct H; unfold fsafe; simpl.
   apply prune_flin_le_isafe. apply prune_flin_eq_gen_isafe. apply prune_flin_ne_isafe.
   apply prune_flin_le_reif_isafe. apply prune_flin_eq_reif_isafe. apply prune_flin_ne_reif_isafe.
-  apply prune_fleq_isafe. apply prune_feq_isafe. apply prune_ilin_le_mixed_isafe. Qed.
+  apply prune_fleq_isafe. apply prune_flt_isafe. apply prune_feq_isafe. apply prune_ilin_le_mixed_isafe. Qed.
 
 Lemma fpropagate_ile : forall pf ps s q r lft, Forall fsafe ps -> fpropagate pf ps s q = (FPDone r, lft) -> store_ile r s.
 Proof. induction pf as [|f IH]; intros ps s q r lft Hps; destruct q as [|p q']; simpl; intro H; try discriminate.
@@ -223,7 +227,7 @@ Definition sol_of (s0 : fstore) (sol : list fval) : Prop :=
   exists s', sol = fsolution s' /\ store_ile s' s0 /\ fall_assigned s' = true.
 
 Lemma fon_branch_props_fsafe : forall m best, Forall fsafe (fon_branch_props m best).
-Proof. intros [obj|] [b|]; simpl; auto. constructor; auto. unfold fsafe, mk_flt, mk_fleq; simpl. apply prune_fleq_isafe. Qed.
+Proof. intros [obj|] [b|]; simpl; auto. constructor; auto. unfold fsafe, mk_flt; simpl. apply prune_flt_isafe. Qed.
 
 Lemma fdfs_sols : forall m maxsols fuel ps s best budget nsol, Forall fsafe ps ->
   forall sol, In sol (fs_sols (fdfs m maxsols fuel ps s best budget nsol)) -> sol_of s sol.
@@ -256,7 +260,7 @@ Proof. intros m maxsols. induction fuel as [|f IH]; intros ps s best budget nsol
   { intros sl. apply CH. unfold fsafe, mk_fleq; simpl; apply prune_fleq_isafe. }
   destruct (fs_stop R1); auto.
   simpl. intro Hin. apply in_app_or in Hin. destruct Hin as [Hin|Hin]; auto.
-  revert Hin. apply CH. unfold fsafe, mk_fgt, mk_fleq; simpl; apply prune_fleq_isafe. Qed.
+  revert Hin. apply CH. unfold fsafe, mk_fgt, mk_flt; simpl; apply prune_flt_isafe. Qed.
 
 Lemma fsearch_sols : forall m maxsols fuel budget ps s, Forall fsafe ps ->
   forall sol, In sol (fs_sols (fsearch m maxsols fuel budget ps s)) -> sol_of s sol.
@@ -328,6 +332,79 @@ Theorem witness_survives_set_min : forall i v i' ev w, magn_b i v = true -> tsmi
 Proof. intros i v i' ev w M H L1 L2 Mg. destruct (tsmin_ff_magn i v i' ev M H) as (_ & Emax & _ & _ & [L|L]).
   - rewrite Emax. lra. - rewrite Emax. lra. Qed.
 
+(* ---------------------------------------------------------------- bisect_progress (repair of the bisection stall) *)
+(* A split point m that passes the test of the repaired FloatInterval::mid (more than step/2 away from both bounds, as
+   decided by the f64 comparisons) makes BOTH branches of the bisection tighten the interval, inside Magn:
+     left  child  x <= m : try_set_max(m) succeeds with an event, min untouched, new max < max - 0.07*step, new max >= min
+     right child  x >= m : try_set_min(m) succeeds with an event, max untouched, new min > min + 0.07*step, new min <= max
+   so the width of the pivot's interval shrinks by more than 0.07*step at every level of the search tree. *)
+Lemma fi_tol_is_ctx_tol : forall i, fi_tol i = ctx_tol i.
+Proof. reflexivity. Qed.
+
+Lemma flt_above_sub_tol : forall i x, wf i -> fin x -> R_ (imin i) <= R_ x -> flt x (fsub (imin i) (ctx_tol i)) = false.
+Proof. intros i x W Fx L. destruct (ctx_tol_fin i W) as (Ft & T0 & _). destruct W as (A & B & C & D & E).
+  destruct (fsub_nonneg_le (imin i) (ctx_tol i) A Ft T0) as [[F Le]|Ei].
+  - apply flt_fin_f; auto. lra.
+  - rewrite Ei. unfold flt. rewrite fcmp_fin_ninf; auto. Qed.
+Lemma fgt_below_add_tol : forall i x, wf i -> fin x -> R_ x <= R_ (imax i) -> fgt x (fadd (imax i) (ctx_tol i)) = false.
+Proof. intros i x W Fx L. destruct (ctx_tol_fin i W) as (Ft & T0 & _). destruct W as (A & B & C & D & E).
+  destruct (fadd_nonneg_ge (imax i) (ctx_tol i) B Ft T0) as [[F Le]|Ei].
+  - apply fgt_fin_f; auto. lra.
+  - rewrite Ei. unfold fgt. rewrite fcmp_fin_pinf; auto. Qed.
+
+Lemma split_wide_enough : forall i m, MagnR i m -> fi_split_ok i m = true ->
+  flt (fabs (fsub (imax i) (imin i))) (ctx_tol i) = false /\
+  R_ (imin i) + 37/100 * R_ (istep i) < R_ m /\ R_ m < R_ (imax i) - 37/100 * R_ (istep i).
+Proof. intros i m M S. unfold fi_split_ok in S. rewrite fi_tol_is_ctx_tol in S. apply andb_true_iff in S. destruct S as (T1 & T2).
+  assert (Lv := below_max_tol_strong i m M T2). assert (Lu := above_min_tol_strong i m M T1).
+  split; [|split; assumption].
+  destruct M as [W Fm S1 S2 Bmin Bmax Bv Bf]. destruct (ctx_tol_fin i W) as (Ft & T0 & Et).
+  destruct W as (A & B & C & D & E).
+  destruct (fsub_cases (imax i) (imin i) B A) as [[F Eq]|(Ov & Ei & _)].
+  - destruct (fabs_fin _ F) as (Fa & Ea). apply flt_fin_f; auto. rewrite Ea, Eq, Et.
+    rewrite Rabs_pos_eq. apply RN_le. lra. rewrite <- RN_0. apply RN_le. lra.
+  - rewrite Ei. destruct (Binary.Bsign 53 1024 (imax i)); unfold flt; simpl;
+      change (Binary.B754_infinity 53 1024 false) with pinf; rewrite fcmp_pinf_fin; auto. Qed.
+
+Theorem split_left_progress : forall i m, magn_b i m = true -> fi_split_ok i m = true ->
+  exists mx, tsmax_ff i m = Some (mkfi (imin i) mx (istep i), true) /\ fin mx /\
+    R_ (imin i) <= R_ mx /\ R_ mx < R_ (imax i) - 7/100 * R_ (istep i).
+Proof. intros i m Mb S. assert (M := magn_b_MagnR i m Mb).
+  destruct (split_wide_enough i m M S) as (Early & Lu & Lv).
+  unfold fi_split_ok in S. rewrite fi_tol_is_ctx_tol in S. apply andb_true_iff in S. destruct S as (T1 & T2).
+  assert (M' := M). destruct M' as [W Fm S1 S2 Bmin Bmax Bv Bf]. assert (W' := W). destruct W' as (A & B & C & D & E).
+  unfold tsmax_ff. cbv zeta. rewrite Early. cbn [andb].
+  assert (T0 : flt m (imin i) = false) by (apply flt_fin_f; auto; lra). rewrite T0, T2.
+  destruct (quant_float mode_DN m (istep i) (or_intror eq_refl) Fm C S1 S2 Bv) as (Fn & _ & Up & _).
+  specialize (Up eq_refl). change (Binary.Bnearbyint 53 1024 Hpe unop_nan_pl64 mode_DN) with ffloor in *.
+  set (nm0 := fmul (ffloor (fdiv m (istep i))) (istep i)) in *.
+  destruct (flt nm0 (imin i)) eqn:T3.
+  - rewrite (flt_above_sub_tol i (imin i) W A) by lra. exists (imin i). repeat split; auto; lra.
+  - apply flt_fin_f in T3; auto. rewrite (flt_above_sub_tol i nm0 W Fn T3). exists nm0. repeat split; auto; lra. Qed.
+
+Theorem split_right_progress : forall i m, magn_b i m = true -> fi_split_ok i m = true ->
+  exists mn, tsmin_ff i m = Some (mkfi mn (imax i) (istep i), true) /\ fin mn /\
+    R_ (imin i) + 7/100 * R_ (istep i) < R_ mn /\ R_ mn <= R_ (imax i).
+Proof. intros i m Mb S. assert (M := magn_b_MagnR i m Mb).
+  destruct (split_wide_enough i m M S) as (Early & Lu & Lv).
+  unfold fi_split_ok in S. rewrite fi_tol_is_ctx_tol in S. apply andb_true_iff in S. destruct S as (T1 & T2).
+  assert (M' := M). destruct M' as [W Fm S1 S2 Bmin Bmax Bv Bf]. assert (W' := W). destruct W' as (A & B & C & D & E).
+  unfold tsmin_ff. cbv zeta. rewrite Early. cbn [andb].
+  rewrite (fgt_below_add_tol i m W Fm) by lra. rewrite T1.
+  destruct (quant_float mode_UP m (istep i) (or_introl eq_refl) Fm C S1 S2 Bv) as (Fn & Lo & _ & _).
+  specialize (Lo eq_refl). change (Binary.Bnearbyint 53 1024 Hpe unop_nan_pl64 mode_UP) with fceil in *.
+  set (nm0 := fmul (fceil (fdiv m (istep i))) (istep i)) in *.
+  destruct (fgt nm0 (imax i)) eqn:T3.
+  - rewrite (fgt_below_add_tol i (imax i) W B) by lra. exists (imax i). repeat split; auto; lra.
+  - apply fgt_fin_f in T3; auto. rewrite (fgt_below_add_tol i nm0 W Fn T3). exists nm0. repeat split; auto; lra. Qed.
+
+(* what the repaired mid returns for an interval that is neither empty nor fixed *)
+Lemma fi_mid_split_ok_or_exact : forall i m, fi_is_empty i = false -> fi_is_fixed i = false -> fi_mid i = Some m ->
+  fi_split_ok i m = true \/ fclamp (fi_rough_mid i) (imin i) (imax i) = Some m.
+Proof. intros i m E F H. unfold fi_mid in H. rewrite E, F in H.
+  destruct (fi_round_to_step i (fi_rough_mid i)) as [r|]; [|discriminate].
+  destruct (fi_split_ok i r) eqn:S. inversion H; subst; auto. auto. Qed.
+
 Close Scope R_scope.
 
 (* ================================================================ Part 3: what the code does NOT guarantee *)
@@ -340,10 +417,12 @@ Theorem float_cmp_lowered_to_intlin_is_noop : forall s ev x y ix iy k, x <> y ->
   prune_ilin_le_mixed [1; -1] [x; y] k (s, ev) = Some (s, ev).
 Proof. intros s ev x y ix iy k N Hx Hy. unfold prune_ilin_le_mixed. simpl. unfold ilin_le_step. simpl. rewrite Hy. reflexivity. Qed.
 
-(* -- (b) FloatLinLe never tightens nor checks an integer variable: a one-variable row over an int variable is the identity *)
-Theorem flin_le_ignores_int_var : forall c v d coeff k, fget (fst c) v = VI d ->
-  prune_flin_le [coeff] [v] k c = Some c.
-Proof. intros c v d coeff k H. unfold prune_flin_le. simpl. unfold flin_le_step. simpl. rewrite H. simpl.
+(* -- (b) BEFORE the repair FloatLinLe never tightened nor checked an integer variable: a one-variable row over an int variable
+      was the identity.  AFTER the repair it bounds it: 1.5*x <= 4 on x in {3,4,5} fails (4/1.5 = 2.67 floors to 2 < 3), and on
+      x in {0..5} leaves {0,1,2} *)
+Theorem flin_le_prefix_ignores_int_var : forall c v d coeff k, fget (fst c) v = VI d ->
+  prune_flin_le_prefix [coeff] [v] k c = Some c.
+Proof. intros c v d coeff k H. unfold prune_flin_le_prefix. simpl. unfold flin_le_step_prefix. simpl. rewrite H. simpl.
   destruct (flt (fabs coeff) c_zero_coeff); auto.
   destruct (fgt coeff c_zero); [destruct (fis_finite _)|destruct (fis_finite _)]; reflexivity. Qed.
 
@@ -358,6 +437,11 @@ Definition obs_var (x : fvar) : list Z :=
   match x with VI d => 0 :: d | VF i => [1; to_bits (imin i); to_bits (imax i); to_bits (istep i)] end.
 Definition obs_ctx (r : option fctx) : option (list (list Z) * list nat) :=
   match r with None => None | Some (s, ev) => Some (map obs_var s, ev) end.
+Lemma flin_le_bounds_int_var_ok :
+  prune_flin_le [of_bits 0x3ff8000000000000] [0%nat] (of_bits 0x4010000000000000) ([VI [3; 4; 5]], []) = None /\
+  obs_ctx (prune_flin_le [of_bits 0x3ff8000000000000] [0%nat] (of_bits 0x4010000000000000) ([VI [0; 1; 2; 3; 4; 5]], []))
+    = Some ([[0; 0; 1; 2]], [0%nat]).
+Proof. vm_compute. split; reflexivity. Qed.
 
 (* ... and a float variable that the SEARCH regards as assigned (is_fixed: one step wide) is not fixed for FloatLinNe:
    x, y in [0, 1e-6] with step 1e-6 are both assigned, FloatLinNe(x - y != 0) accepts the store, and the reported
@@ -370,22 +454,35 @@ Lemma float_ne_refuted_ok :
   map (fun b => match b with VlF x => to_bits x | VlI z => z end) (fsolution w_ne_store) = [0; 0].
 Proof. vm_compute. repeat split; reflexivity. Qed.
 
-(* -- (d) bisection can stall: x in [0, 0.375] with step 0.25 (width 1.5 steps) is NOT assigned (round(1.5) = 2 > 1), its mid
-      is 0.25, and the left branch x <= 0.25 changes nothing (0.25 is not below max - step/2): the left child equals its
-      parent, no event is raised, and the depth-first engine descends for ever (the right child, which would be a solution,
-      is never reached) *)
+(* -- (d) the bisection stall BEFORE the repair (fi_mid_prefix = the old FloatInterval::mid): x in [0, 0.375] with step 0.25
+      (width 1.5 steps) is NOT assigned (round(1.5) = 2 > 1), the old mid is 0.25, and the left branch x <= 0.25 changes nothing
+      (0.25 is not below max - step/2): the left child equals its parent, no event is raised, and the depth-first engine
+      descended for ever.  AFTER the repair mid is the exact midpoint 0.1875 (the rounded one fails fi_split_ok), both
+      children are assigned, and the model of solve() returns the solution 0.0. *)
 Definition w_stall_iv : fint := mkfi (of_bits 0) (of_bits 0x3fd8000000000000) (of_bits 0x3fd0000000000000).
 Definition w_stall_store : fstore := [VF w_stall_iv].
 Definition w_stall_mid : fval := VlF (of_bits 0x3fd0000000000000).
-Lemma bisect_stall_ok :
+Lemma bisect_stall_prefix_ok :
   wf_b w_stall_iv = true /\ fall_assigned w_stall_store = false /\ ffirst_unassigned w_stall_store 0 = Some 0%nat /\
-  option_map (fun b => match b with VlF x => to_bits x | VlI z => z end) (var_mid (fget w_stall_store 0)) = Some 0x3fd0000000000000 /\
+  option_map to_bits (fi_mid_prefix w_stall_iv) = Some 0x3fd0000000000000 /\
+  fi_split_ok w_stall_iv (of_bits 0x3fd0000000000000) = false /\
   obs_ctx (fprune (mk_fleq (FVar 0) (FConst w_stall_mid)) (w_stall_store, [])) = obs_ctx (Some (w_stall_store, [])).
 Proof. vm_compute. repeat split; reflexivity. Qed.
-(* with every fuel the model of `solve` on this one-variable, constraint-free model reports no solution and runs out of fuel *)
-Lemma bisect_stall_search : forall n, (n <= 12)%nat ->
-  let r := fsolve_first n 1000 [] w_stall_store in fs_sols r = [] /\ fs_stop r = StopFuel.
-Proof. intros n H. do 13 (destruct n as [|n]; [vm_compute; split; reflexivity|]). lia. Qed.
+Lemma bisect_repaired_ok :
+  option_map to_bits (fi_mid w_stall_iv) = Some 0x3fc8000000000000 /\
+  fi_split_ok w_stall_iv (of_bits 0x3fc8000000000000) = true /\ magn_b w_stall_iv (of_bits 0x3fc8000000000000) = true /\
+  (let r := fsolve_first 50 1000 [] w_stall_store in
+   map (map (fun b => match b with VlF x => to_bits x | VlI z => z end)) (fs_sols r) = [[0]] /\ fs_stop r = StopMore).
+Proof. vm_compute. repeat split; reflexivity. Qed.
+
+(* -- (e0) strict comparison int variable < float variable.  BEFORE the repair (prune_flt_prefix: x.next() <= y with the INTEGER
+      successor) x1 = 5 < x0, x0 in [-0.5, 5.5] failed although x0 = 5.25 satisfies it; AFTER the repair (prune_flt: x <= y.prev())
+      the same store is tightened to x0 in [5 + step, 5.5] *)
+Definition w_mix_store : fstore := [VF (mkfi (of_bits 0xbfe0000000000000) (of_bits 0x4016000000000000) (of_bits 0x3e45798ee2308c3a)); VI [5]].
+Lemma mixed_strict_ok :
+  prune_flt_prefix (FVar 1) (FVar 0) (w_mix_store, []) = None /\
+  obs_ctx (prune_flt (FVar 1) (FVar 0) (w_mix_store, [])) = Some ([[1; 0x4014000000abcc77; 0x4016000000000000; 0x3e45798ee2308c3a]; [0; 5]], [0%nat]).
+Proof. vm_compute. split; reflexivity. Qed.
 
 (* -- (e) strict comparison of a float variable with an integer literal: x > 2 is lowered (LinearInt, op Gt) to IntLinLe([-1],[x],-3),
       i.e. x >= 3: on x in [0, 2.5] the space fails although 2.25 satisfies x > 2 with a margin of 25 steps of 0.01 *)
